@@ -2139,3 +2139,56 @@ func scenDeposedLeaderTruncates(e *engineA) error {
 	e.sleepHB(4, 8)
 	return e.finish()
 }
+
+func init() { scenarios["open-vs-retention"] = scenOpenVsRetention }
+
+// scenOpenVsRetention (C15 / C09): the leader is about to send its snapshot
+// to a follower that fell behind the compaction (it has read the label and is
+// held before it opens the file); meanwhile the leader takes another snapshot,
+// and with one snapshot retained the older one's files are removed.
+func scenOpenVsRetention(e *engineA) error {
+	e.prof = profiles["snapshot"]
+	if err := e.boot(3); err != nil {
+		return err
+	}
+	e.cl.startInfoSampler(e.hb() / 2)
+	l := e.cl.leader()
+	if l == nil {
+		return fmt.Errorf("no leader")
+	}
+	pad := 90 + 10*e.rng.Intn(4)
+	for i := 0; i < 5+e.rng.Intn(10); i++ {
+		e.cl.fsmOpPad(1, l, "update", pad)
+	}
+	f := e.others(l)[e.rng.Intn(2)]
+	e.rc.emit(&ev.Rec{K: "fault", Op: "snapshot-opened-for-sending-while-the-next-is-taken", Nid: f.nid})
+	e.isolate(f, true)
+	for i := 0; i < 20+e.rng.Intn(20); i++ {
+		if r := e.cl.fsmOpPad(1, l, "update", pad); !r.ok {
+			break
+		}
+	}
+	e.sleepHB(4, 5)
+	e.cl.takeSnapshot(l, 0)
+	e.waitFor(30, func() bool {
+		info, ok := l.info(false)
+		return ok && info.FirstLogIndex > 4
+	})
+	for i := 0; i < 3+e.rng.Intn(5); i++ {
+		e.cl.fsmOpPad(1, l, "update", pad)
+	}
+	hit := e.pc.hold(l.dir, "snap.open.metaRead")
+	e.isolate(f, false)
+	select {
+	case <-hit:
+		// the replication holds the label of the current snapshot; the next one is published
+		e.cl.takeSnapshot(l, 0)
+		e.sleepHB(1, 2)
+	case <-time.After(40 * e.hb()):
+	}
+	e.pc.release(l.dir, "snap.open.metaRead")
+	e.sleepHB(3, 5)
+	e.startClients(2, map[string]int{"update": 3, "read": 1})
+	e.sleepHB(4, 8)
+	return e.finish()
+}
